@@ -1213,6 +1213,30 @@ func main() {
 		c.ls = []listReq{{"cmdline:" + v8193b, 0}, {"cmdline>" + v8192, 0}, {k256a + ">0", 0}, {k256b + ":1", 2}}
 		emit(c.encode(next()))
 	}
+	if shard == 0 && os.Getenv("VERIF_C19_BIG") != "0" {
+		// a run of consecutive identical-label results far longer than 64 KiB of content (as from
+		// `go test -count=1500`) between ordinary records: still ONE stored record
+		lens := []int{1500}
+		if hx.Tier() == "thorough" {
+			lens = []int{1000, 1500, 4000}
+		}
+		for _, n := range lens {
+			c := &histCase{tags: []string{"longrun"}}
+			var b strings.Builder
+			b.WriteString("k: a\nBenchmarkBefore 1 1 ns/op\nk: b\n")
+			for i := 0; i < n; i++ {
+				fmt.Fprintf(&b, "BenchmarkLongRun/case-8 1 %d ns/op %d B/op 3 allocs/op\n", 100000+i, 4096+i%7)
+			}
+			b.WriteString("k: a\nBenchmarkAfter 1 2 ns/op\n")
+			c.ups = []uploadIn{
+				{day: "20260101", files: []fileIn{{"run.txt", b.String()}}},
+				{day: "20260101", files: []fileIn{{"s.txt", "k: b\nBenchmarkLongRun/case-8 1 5 ns/op\nBenchmarkLongRun/case-8 1 6 ns/op\n"}}},
+			}
+			c.qs = []string{"upload:20260101.1", "k:b name:LongRun sub1:case", "k:a"}
+			c.ls = []listReq{{"", 0}, {"k:b", 0}, {"name:LongRun", 0}, {"k:a", 0}, {"upload:20260101.1", 0}}
+			emit(c.encode(next()))
+		}
+	}
 	r := hx.NewRand(19 + uint64(shard)*1000003)
 	g := &gen{r: r}
 	// SplitWords / addToQuery: exhaustive over a small alphabet, then random
